@@ -8,6 +8,7 @@ require (
 	github.com/gobwas/httphead v0.1.0
 	github.com/gobwas/pool v0.2.1
 	github.com/gobwas/ws v0.0.0
+	github.com/klauspost/compress v1.20.0
 )
 
 replace github.com/gobwas/ws => /repo
